@@ -68,7 +68,12 @@ def _is_context_sensitive(default: "CallableColumnDefault"):
     except (ValueError, TypeError):
         # builtin types like ``dict`` or ``str`` have no signature, sqlalchemy calls them without arguments
         return False
-    return len(parameters) > 0
+    # sqlalchemy passes the context only to a callable having a positional parameter without default (``list`` has none)
+    return any(
+        param.default is inspect.Parameter.empty
+        and param.kind in (inspect.Parameter.POSITIONAL_ONLY, inspect.Parameter.POSITIONAL_OR_KEYWORD)
+        for param in parameters.values()
+    )
 
 
 def _unwrap_mapped_annotation(type_hint: TypeHint) -> TypeHint:
